@@ -1385,23 +1385,38 @@ func c20ConfigMap(data map[string]string, rv int) *corev1.ConfigMap {
 	return cm
 }
 
-func c20Run(t *testing.T, focusID string) {
+// c20Run is the engine of all C20 tests. focusID names the judged section; with restore=true (unit "reapply") the
+// judged section is drawn per case, histories are longer and aim at removing a section (or the whole ConfigMap) and
+// bringing an EARLIER text of it back byte for byte. All draws added for restore mode are guarded by the flag, so the
+// draw sequence (and the recorded fail files) of the five per-section tests does not change.
+func c20Run(t *testing.T, focusID string, restore bool) {
 	c20Quiet()
 	secs := c20AllSections()
-	var focus *c20Section
+	var fixedFocus *c20Section
 	for _, s := range secs {
 		if s.id == focusID {
-			focus = s
+			fixedFocus = s
 		}
 	}
-	rec := vk.New(t, "C20", focusID)
-	rec.Note("slots", fmt.Sprintf("%d settable field paths derived by reflection", len(focus.slots)))
-	if len(focus.skipped) > 0 {
-		rec.Note("fields-without-generator", strings.Join(focus.skipped, "; "))
+	unit := focusID
+	if restore {
+		unit = "reapply"
+	}
+	rec := vk.New(t, "C20", unit)
+	if fixedFocus != nil {
+		rec.Note("slots", fmt.Sprintf("%d settable field paths derived by reflection", len(fixedFocus.slots)))
+		if len(fixedFocus.skipped) > 0 {
+			rec.Note("fields-without-generator", strings.Join(fixedFocus.skipped, "; "))
+		}
 	}
 	rapid.Check(t, func(t *rapid.T) {
 		c := rec.Begin()
 		defer c.End()
+		focus := fixedFocus
+		if focus == nil {
+			focus = secs[rapid.IntRange(0, len(secs)-1).Draw(t, "focusSection")]
+			c.Class("focus:" + focus.id)
+		}
 
 		// three nodes: two with (many) random labels, one without labels
 		nodeLabels := []map[string]string{c20GenLabels(t, "n0", 80), c20GenLabels(t, "n1", 50), {}}
@@ -1421,11 +1436,28 @@ func c20Run(t *testing.T, focusID string) {
 			}
 		}
 
-		nEvents := rapid.IntRange(1, 5).Draw(t, "events")
+		var nEvents int
+		if restore {
+			nEvents = rapid.IntRange(3, 7).Draw(t, "events")
+		} else {
+			nEvents = rapid.IntRange(1, 5).Draw(t, "events")
+		}
 		state := map[string]*c20SecState{}
+		earlier := map[string][]*c20SecState{} // restore mode: every distinct text a section had in an earlier version
 		for _, s := range secs {
 			state[s.id] = &c20SecState{}
 		}
+		// an earlier version of section id whose text differs from the current one; "" texts excluded (nothing to re-apply)
+		earlierOther := func(id string) []*c20SecState {
+			var out []*c20SecState
+			for _, e := range earlier[id] {
+				if !(state[id].present && state[id].text == e.text) {
+					out = append(out, e)
+				}
+			}
+			return out
+		}
+		ntRestore := false
 		prev := make([]c20Leaves, len(nodes)) // previously effective settings of the focused section, per node
 		for i := range prev {
 			prev[i] = focus.defaults
@@ -1453,7 +1485,9 @@ func c20Run(t *testing.T, focusID string) {
 				kind = rapid.SampledFrom([]string{"create", "create", "create", "create", "startup-with-cm", "startup-no-cm"}).Draw(t, "firstEvent")
 			} else if lastCM == nil {
 				kind = "create"
-			} else if rapid.IntRange(0, 9).Draw(t, "delete") == 9 {
+			} else if !restore && rapid.IntRange(0, 9).Draw(t, "delete") == 9 {
+				kind = "delete"
+			} else if restore && rapid.IntRange(0, 9).Draw(t, "deleteR") >= 8 {
 				kind = "delete"
 			}
 			c.Class("event:" + kind)
@@ -1479,6 +1513,7 @@ func c20Run(t *testing.T, focusID string) {
 			}
 
 			// ---- the new ConfigMap content
+			focusWasPresent := state[focus.id].present
 			var data map[string]string
 			var summary []string
 			if kind != "startup-no-cm" {
@@ -1489,6 +1524,23 @@ func c20Run(t *testing.T, focusID string) {
 				if old := state[focus.id]; old.present && !old.malformed {
 					focusModes = append(focusModes, "malformed", "malformed", "toggle", "toggle", "toggle", "toggle")
 				}
+				if restore { // remove / bring back verbatim / replace
+					old, back := state[focus.id], len(earlierOther(focus.id)) > 0
+					switch {
+					case old.present:
+						focusModes = []string{"absent", "absent", "absent", "absent", "valid", "valid", "malformed", "same"}
+						if !old.malformed {
+							focusModes = append(focusModes, "toggle")
+						}
+						if back {
+							focusModes = append(focusModes, "restore", "restore")
+						}
+					case back:
+						focusModes = []string{"restore", "restore", "restore", "restore", "restore", "restore", "valid", "valid", "absent"}
+					default:
+						focusModes = []string{"valid", "valid", "valid", "valid", "valid", "malformed", "empty", "absent"}
+					}
+				}
 				focusMode := rapid.SampledFrom(focusModes).Draw(t, "mode_"+focus.id)
 				freezeOthers := focusMode == "toggle" && rapid.IntRange(0, 9).Draw(t, "freezeOthers") < 8
 				for _, s := range secs {
@@ -1497,8 +1549,14 @@ func c20Run(t *testing.T, focusID string) {
 					mode := focusMode
 					if !full {
 						mode = "same"
-						if !freezeOthers {
+						if !freezeOthers && !restore {
 							mode = rapid.SampledFrom([]string{"absent", "absent", "valid", "valid", "malformed", "same"}).Draw(t, "mode_"+s.id)
+						}
+						if !freezeOthers && restore {
+							mode = rapid.SampledFrom([]string{"absent", "absent", "same", "same", "same", "valid", "malformed", "restore", "restore"}).Draw(t, "modeR_"+s.id)
+							if mode == "restore" && len(earlierOther(s.id)) == 0 {
+								mode = "absent"
+							}
 						}
 					}
 					if mode == "same" && !old.present {
@@ -1520,6 +1578,17 @@ func c20Run(t *testing.T, focusID string) {
 					}
 					switch mode {
 					case "absent":
+					case "restore": // an earlier text of this section, byte for byte
+						cand := earlierOther(s.id)
+						*st = *cand[len(cand)-1-rapid.IntRange(0, len(cand)-1).Draw(t, "restoreWhich")]
+						st.mode = "restore"
+						if full {
+							c.Class("reapply:identical-earlier-text")
+							c.ClassIf(!old.present && kind == "update", "reapply:after-section-key-removed")
+							c.ClassIf(kind == "create" && ev > 0, "reapply:after-configmap-delete-and-recreate")
+							c.ClassIf(old.present, "reapply:over-a-different-text")
+							c.ClassIf(st.malformed, "reapply:of-a-malformed-text")
+						}
 					case "same":
 						*st = *old
 						st.mode = "same"
@@ -1546,6 +1615,15 @@ func c20Run(t *testing.T, focusID string) {
 					state[s.id] = st
 					if st.present {
 						data[s.key] = st.text
+					}
+					if restore && st.present && st.text != "" {
+						known := false
+						for _, e := range earlier[s.id] {
+							known = known || e.text == st.text
+						}
+						if !known {
+							earlier[s.id] = append(earlier[s.id], st)
+						}
 					}
 					if full {
 						c.Class("section:" + mode)
@@ -1642,6 +1720,9 @@ func c20Run(t *testing.T, focusID string) {
 							kindName = "list"
 						}
 						sig := fmt.Sprintf("layer:%s:%s:want-%s:got-%s", focus.id, kindName, want, view.origin(focus, p, a, hasA))
+						if st.mode == "restore" { // only in the re-apply histories
+							sig += ":on-reapplied-identical-text"
+						}
 						// a known (recorded) finding is counted by vk; the remaining paths and events are still judged,
 						// because everything later is compared with what the real code delivered
 						c.Violation(t, sig, "path %s: expected %s (from %s), delivered %s; matching entries %v, entries with invalid selector %v; %s",
@@ -1694,6 +1775,12 @@ func c20Run(t *testing.T, focusID string) {
 					}
 					c.ClassIf(len(view.invalid) > 0, "invalid-selector-entry")
 				}
+				if restore && st.mode == "restore" && !st.malformed && !focusWasPresent && !c20LeavesEq(act, focus.defaults) {
+					// the section was gone (key removed or ConfigMap deleted) and its earlier text, which yields
+					// non-default settings for this node, is back
+					ntRestore = true
+					c.Class("reapply:after-removal-with-non-default-effect")
+				}
 				prev[i], oldSpecs[i] = act, spec
 			}
 			ntKey = append(ntKey, st.text)
@@ -1708,8 +1795,11 @@ func c20Run(t *testing.T, focusID string) {
 		c.ClassIf(fl.emptyObj, "empty-nested-object")
 		c.ClassIf(fl.emptyList, "empty-list")
 		c.ClassIf(q.n > 0, "nodes-enqueued")
+		if restore {
+			nt = ntRestore
+		}
 		if nt {
-			c.NonTrivial(nodeLabels, ntKey)
+			c.NonTrivial(nodeLabels, ntKey, focus.id)
 		}
 		if c.WantSample() {
 			c.Sample(map[string]any{"nodeLabels": nodeLabels, "history": hist})
@@ -1717,8 +1807,13 @@ func c20Run(t *testing.T, focusID string) {
 	})
 }
 
-func TestVerifC20Threshold(t *testing.T)   { c20Run(t, "threshold") }
-func TestVerifC20ResourceQOS(t *testing.T) { c20Run(t, "qos") }
-func TestVerifC20CPUBurst(t *testing.T)    { c20Run(t, "cpuburst") }
-func TestVerifC20System(t *testing.T)      { c20Run(t, "system") }
-func TestVerifC20HostApp(t *testing.T)     { c20Run(t, "hostapp") }
+func TestVerifC20Threshold(t *testing.T)   { c20Run(t, "threshold", false) }
+func TestVerifC20ResourceQOS(t *testing.T) { c20Run(t, "qos", false) }
+func TestVerifC20CPUBurst(t *testing.T)    { c20Run(t, "cpuburst", false) }
+func TestVerifC20System(t *testing.T)      { c20Run(t, "system", false) }
+func TestVerifC20HostApp(t *testing.T)     { c20Run(t, "hostapp", false) }
+
+// Longer histories in which a section key (or the whole ConfigMap) is removed and an earlier text of the section is
+// applied again byte for byte; the judged section is drawn per case. Same oracle: after EVERY event the layering is
+// computed from the current ConfigMap text only.
+func TestVerifC20Reapply(t *testing.T) { c20Run(t, "", true) }
